@@ -64,3 +64,36 @@ pub broadcast proof fn bridge_shr_{{T}}(x: {{T}}, n: u32)
     requires n < {{W}}
     ensures #[trigger] (x >> n) as int == (x as int) / p2(n as int)
 { lemma_shr_{{T}}(x, n); }
+// shift left with wrap-around: the unsigned reinterpretation of x << n is (x * 2^n) mod 2^W (induction on n)
+pub proof fn lemma_shl_wrap_{{T}}(x: {{T}}, n: u32)
+    requires n < {{W}}
+    ensures ((x << n) as {{U}}) as int == wrap(false, {{W}}, x as int * p2(n as int))
+    decreases n
+{
+    lemma_p2_consts();
+    if n == 0 {
+        assert(x << 0u32 == x) by (bit_vector);
+        assert((x as {{U}}) as int == x as int || (x as {{U}}) as int == x as int + ({{HI}}int - {{LO}}int)) by (bit_vector);
+        if (x as {{U}}) as int == x as int { lemma_wrap_unique(false, {{W}}, x as int, (x as {{U}}) as int, 0); }
+        else { lemma_wrap_unique(false, {{W}}, x as int, (x as {{U}}) as int, 1); }
+    } else {
+        let m = (n - 1) as u32;
+        lemma_shl_wrap_{{T}}(x, m);
+        lemma_p2_step(n as int); lemma_p2_pos(m as int);
+        let y = (x << m) as {{U}};
+        let xm = x as int * p2(m as int);
+        let k = lemma_wrap_diff(false, {{W}}, xm);
+        assert(((x << n) as {{U}}) == (((x << ((n - 1) as u32)) as {{U}}) << 1u32)) by (bit_vector) requires 0 < n < {{W}};
+        assert((y << 1u32) as int == 2 * (y as int) || (y << 1u32) as int == 2 * (y as int) - ({{HI}}int - {{LO}}int)) by (bit_vector);
+        let z = (y << 1u32) as int;
+        assert(x as int * p2(n as int) == 2 * xm) by (nonlinear_arith) requires p2(n as int) == 2 * p2(m as int), xm == x as int * p2(m as int);
+        // z = 2 * (xm - k 2^W) - c 2^W  for c in {0, 1}
+        if z == 2 * (y as int) {
+            assert(z == 2 * xm + (-(2 * k)) * p2({{W}})) by (nonlinear_arith) requires z == 2 * (y as int), y as int == xm - k * p2({{W}});
+            lemma_wrap_unique(false, {{W}}, 2 * xm, z, -(2 * k));
+        } else {
+            assert(z == 2 * xm + (-(2 * k) - 1) * p2({{W}})) by (nonlinear_arith) requires z == 2 * (y as int) - p2({{W}}), y as int == xm - k * p2({{W}});
+            lemma_wrap_unique(false, {{W}}, 2 * xm, z, -(2 * k) - 1);
+        }
+    }
+}
